@@ -66,7 +66,12 @@ def strat_case(draw, tier):
     trunc = None
     if draw(st.booleans()):
         trunc = [-draw(_mag()), draw(_mag())]
-    return {"model": spec, "n": n, "cls": cls, "a": a, "b": b, "split": split, "trunc": trunc}
+    # a second truncation applied on top of the first (a pre-truncated model truncated again by a chain): the result
+    # is the restriction to the intersection, whether the second interval is nested in the first or not
+    trunc2 = None
+    if trunc is not None and draw(st.integers(0, 2)) == 0:
+        trunc2 = [-draw(_mag()), draw(_mag())]
+    return {"model": spec, "n": n, "cls": cls, "a": a, "b": b, "split": split, "trunc": trunc, "trunc2": trunc2}
 
 
 def _entry_points(nu, n):
@@ -165,8 +170,10 @@ def body(case):
                 tol = 1e-6 * scale + 3e-8
             else:
                 tol = 1e-7 * scale + 1e-10 * tail + 1e-11
+            # (a truncated measure hands the clipped interval to the fallback)
             if (not np.isfinite(val) or abs(val - ref) > tol) and _uses_default_quad(spec, n, name, aa, bb) \
-                    and _is_scipy_default_quad_result(dens, aa, bb, n, val):
+                    and (_is_scipy_default_quad_result(dens, aa, bb, n, val) or
+                         (ra < rb and _is_scipy_default_quad_result(dens, ra, rb, n, val))):
                 # the fallback did integrate the right integrand over the right pieces; scipy.quad at its
                 # default settings is what misses the mass (narrow bump on a wide interval)
                 out.append(Violation("C09/quad-fallback/scipy-default-quad-misses-narrow-mass",
@@ -230,13 +237,24 @@ def body(case):
         sup = tnu.support()
         if tuple(float(v) for v in sup) != (float(l), float(r)):
             out.append(Violation(f"C09/{br}/truncated/support", f"support()={sup} truncation={(l, r)}"))
+        if case.get("trunc2") is not None:
+            l2, r2 = case["trunc2"]
+            tnu2 = TruncatedLevyMeasure(tnu, (l2, r2))
+            ll, rr = max(l, l2), min(r, r2)
+            ia, ib = max(a, ll), min(b, rr)
+            compare(tnu2, base_nu, a, b, "truncated-twice", interval_for_ref=(ia, ib))
+            for x in (min(l, l2) * 1.5, max(r, r2) * 1.5, ll - 1e-9, rr + 1e-9):
+                if float(tnu2(x)) != 0.0:
+                    out.append(Violation(f"C09/{br}/truncated-twice/density-nonzero-outside-the-intersection",
+                                         f"nu({x}) = {tnu2(x)!r} after truncations {l, r} then {l2, r2}"))
+                    break
     return out
 
 
 def classify(case):
     spec, n, cls = case["model"], case["n"], case["cls"]
     br = branch_of(spec)
-    labels = [br, f"n={n}", cls, "truncated" if case["trunc"] else "untruncated",
+    labels = [br, f"n={n}", cls, ("truncated-twice" if case.get("trunc2") else "truncated") if case["trunc"] else "untruncated",
               "parameters-" + spec.get("route", "direct")]
     cut = False
     if case["trunc"]:
